@@ -113,6 +113,17 @@ class SimRandom(_random.Random):
             raise IndexError("Cannot choose from an empty sequence")
         return seq[self._pick_index(n)]
 
+    def randrange(self, start, stop=None, step=1):  # type: ignore[override]
+        if stop is None:
+            start, stop = 0, start
+        width = len(range(start, stop, step))
+        if width <= 0:
+            raise ValueError(f"empty range in randrange({start}, {stop}, {step})")
+        return start + step * self._pick_index(width)
+
+    def randint(self, a, b):  # type: ignore[override]
+        return self.randrange(a, b + 1)
+
     def _perm(self, kind: str, n: int, modekind: str) -> List[int]:
         fed = self._from_feed(kind, n)
         mode = self._mode(modekind)
